@@ -125,12 +125,16 @@ def device_events(tr, data: bytes, scn, known=()):
     env = project.Env(data)
     for b in known:
         t.id(b)
-    integ, lens = [], {}
+    integ, lens, mfs = [], {}, []
     for name, v in env.payloads:
         if v.mt == 2:
             cid = t.id(v.val)
             integ.append([t.id(name), cid])
             lens[cid] = len(v.val)
+            try:   # a member that is itself an envelope: its digest is the digest of its wrapped manifest
+                mfs.append([cid, t.id(project.Env(v.val).mf_wrapped)])
+            except (project.ProjectionError, ValueError):
+                pass
     for b in known:
         lens[t.id(b)] = len(b)
     comps, deps, _ = seqwalk.manifest_steps(env)
@@ -141,7 +145,7 @@ def device_events(tr, data: bytes, scn, known=()):
     if common is not None and common.mt == 5 and common.get(4) is not None:
         shared = seqwalk.unwrap(common.get(4))
     tr.begin(scn, ncomp=len(comps), deps=sorted(k for k in deps if isinstance(k, int)), integ=integ,
-             lens=[[k, n] for k, n in sorted(lens.items())])
+             lens=[[k, n] for k, n in sorted(lens.items())], mf=mfs)
     tr.ev("Header")
     n = 0
     for key, name in seqwalk.SEQ_KEYS.items():
@@ -168,7 +172,7 @@ def run(ctx: core.Check):
     ctx.mc("Device_MC", "Device_MC.cfg", required_actions=("Next",))
     scns = ctx.mc("Device_MC", "Device_Gen.cfg", label="B:scenarios", workers=1, coverage=False).tagged("SCN")
     sim = ctx.mc("Device_MC", "Device_Sim.cfg", label="B:scenarios (simulation)", workers=1, coverage=False,
-                 simulate=(150 if ctx.quick else 3000, 8), seed=ctx.seed).tagged("SCN")
+                 simulate=f"num={150 if ctx.quick else 3000}", depth=8, seed=ctx.seed).tagged("SCN")
     seen, progs = set(), []
     for s in scns + sim:
         k = tuple(s["prog"])
@@ -250,6 +254,26 @@ def run(ctx: core.Check):
             n = device_events(tr, data, {"origin": "example", "file": f}, known=[fw])
             ctx.nontriv(("example", f, n))
             ctx.count("evaluations")
+    # the NCS templates, rendered for every configuration Template_MC enumerates (C19's driver, the created envelope handed over)
+    from . import c19_templates
+    g = ctx.mc("Template_MC", "Template_MC.cfg", workers=1, coverage=False, label="B:configuration enumeration")
+    cfgs = g.tagged("SCN")
+    for s_ in cfgs:
+        s_["present"] = [x for x in ("radio", "application", "top", "secdom", "sysctrl") if x in s_["present"]]
+    build = c19_templates.build_mod()
+    ptr = toolrun.Trace()
+
+    def sink(out, scn, via):
+        for path, lvl in toolrun.levels(out)[:1]:
+            device_events(tr, lvl, {"origin": "template", "scn": scn, "via": via})
+            ctx.count("evaluations")
+            ctx.nontriv(("template", json.dumps(scn, sort_keys=True)))
+    for k, s_ in enumerate(cfgs):
+        c19_templates.run_config(ctx, ptr, build, s_, 2 * k + 2, "lib", sink=sink)
+    bad = toolrun.report(ctx, tr, module="Device_Trace", label="shipped", keyfn=keyfn)
+    # the generator shapes of the other checks are NOT meant to be executable manifests: how many a device would stumble over,
+    # and over what, is recorded (it shows the clauses are not vacuous), never reported
+    tr = toolrun.Trace()
     for k in range(80 if ctx.quick else 2000):
         sh = envgen.random_shape(ctx.rng, maxdepth=1 if k % 3 == 0 else 0, small=True)
         b = envgen.Builder(d / f"s{k}")
@@ -260,12 +284,13 @@ def run(ctx: core.Check):
             ctx.observe(f"shape: create raised {type(e).__name__}")
             continue
         for path, lvl in toolrun.levels(data):
-            device_events(tr, lvl, {"origin": "shape", "shape": sh, "level": path})
+            device_events(tr, lvl, {"origin": "shape", "level": path})
             ctx.count("evaluations")
-        ctx.nontriv(("shape", json.dumps(sh, sort_keys=True)[:400]))
-        if k == 3:
-            ctx.sample({"shape": sh, "events": tr.of(tr.tid)[:8]})
-    toolrun.report(ctx, tr, module="Device_Trace", label="shipped-and-generated", keyfn=keyfn)
+    rej = ctx.validate("Device_Trace", "Device_Trace.cfg", tr.events, label="generator shapes (statistics only)")
+    stat = {}
+    for b_ in rej:
+        stat[b_["clause"]] = stat.get(b_["clause"], 0) + 1
+    ctx.cov["generator_shapes_a_device_would_stumble_over"] = stat
 
 
 def replay(ctx, rec):
